@@ -16,9 +16,13 @@ codec driving an iovec (`Woodpile.EncWorld.XOp`, `xstep`, `xrun`; encoder runs `
   `xop_run_arenaInv`, `enc_run_arenaInv`), from which the statements of C05 are read off
   (`good_exposed_live`, `good_below_bump`).
 
-A run-level statement "the `Op` history IS one `WOp` history" would need the `WOp` world to carry the
-handle table along; it differs from the `Op` world in that one field only, which no model function
-reads except `backfill`'s handle lookup.  Not stated here (the invariants do not need it).
+* run level (`op_run_is_wrun`, `enc_prefix_is_wrun`, `enc_run_is_wrun`): a whole `Op` history, and a
+  whole encoder run, is ONE `WOp` history on the world whose handle table carries the tokens
+  (`World.wb`: the only field in which the two worlds differ; no model function reads it except
+  `backfill`'s handle lookup, `Proofs/IovecWb.lean`).  So these worlds are `Reachable` as `Props/C05`,
+  `C10`, `C20` require, and every theorem stated there applies to them.  For `Op` histories the
+  tokens passed to `backfill` must come from the history's own `registerPatch`es (`TokOk`; in Rust a
+  `Backref` cannot be forged); for encoder runs nothing is assumed.
 -/
 import Woodpile.Proofs.EncGlue
 
@@ -63,7 +67,28 @@ theorem enc_run_arenaInv (p : Woodpile.Hcobs.Params) (hp : p.Valid) (pol : Polic
     (∀ r, encPrefix p pol tun calls = some r → WorldInv r.w ∧ ∃ caps, ArenaInv r.w caps) ∧
     (∀ w' dr, encRun p pol tun calls = some (w', dr) → WorldInv w' ∧ ∃ caps, ArenaInv w' caps) :=
   ⟨fun r h => encPrefix_closed (good_closed _) p hp (Nat.le_refl _) pol tun calls r (good_fresh pol tun) h,
-   fun w' dr h => encRun_closed (good_closed _) p hp (Nat.le_refl _) pol tun calls w' dr (good_fresh pol tun) h⟩
+   fun w' dr h => (encRun_closed (good_closed _) p hp (Nat.le_refl _) pol tun calls w' dr (good_fresh pol tun) h).elim
+     (fun _ hg => hg)⟩
+
+/-- Run level: an `Op` history from `State.init` whose `backfill` tokens are its own (`TokOk`) reaches
+a world that, with the tokens in the handle table, is `Reachable` — literally a `WOp` history. -/
+theorem op_run_is_wrun (pol : Policy) (tun : Tuning) (ops : List Op) (s' : State) (rs : List Ret)
+    (h : run 0 (State.init pol tun) ops = some (s', rs)) (htok : TokOk [] ops rs) :
+    ∃ B', Reachable (s'.w.wb B') :=
+  op_run_reachable pol tun ops s' rs h htok
+
+/-- Run level, encoder: between calls (and after `finish`) the world with the encoder's token list as
+handle table is literally the world after a `WOp` history from `World.init`. -/
+theorem enc_prefix_is_wrun (p : Woodpile.Hcobs.Params) (hp : p.Valid) (pol : Policy) (tun : Tuning)
+    (calls : List Call) (r : Run) (h : encPrefix p pol tun calls = some r) : Reachable (r.w.wb r.e.toks) := by
+  obtain ⟨wops, hr⟩ := Woodpile.EncWorld.enc_prefix_is_wrun p hp pol tun calls r h
+  exact ⟨pol, tun, wops, hr⟩
+
+theorem enc_run_is_wrun (p : Woodpile.Hcobs.Params) (hp : p.Valid) (pol : Policy) (tun : Tuning)
+    (calls : List Call) (w' : World) (dr : List UInt8) (h : encRun p pol tun calls = some (w', dr)) :
+    ∃ toks, Reachable (w'.wb toks) := by
+  obtain ⟨toks, wops, hr⟩ := Woodpile.EncWorld.enc_run_is_wrun p hp pol tun calls w' dr h
+  exact ⟨toks, pol, tun, wops, hr⟩
 
 /-- `C05.exposed_live` from the two invariants (so for every state of the theorems above). -/
 theorem good_exposed_live {w : World} (hg : Good w) : ∃ caps : Nat → Nat,
@@ -102,6 +127,11 @@ private def hist : List Op :=
 
 example : ((run 0 (State.init pol tun) hist).map fun x => ((x.1.w.iov 0).map (·.slices), x.1.w.exts.length)) =
     some (some [⟨.chunk 0, 0, 3⟩, ⟨.ext 2, 0, 3⟩, ⟨.ext 3, 1, 3⟩], 5) := by decide
+-- a history that backfills the token its own `registerPatch` returned satisfies `TokOk`
+example : (run 0 (State.init pol tun) [.registerPatch [0, 0], .backfill (some (2, ⟨0, 0, 2⟩)) [7, 7]]).map (·.2) =
+    some [.token (some (2, ⟨0, 0, 2⟩)), .unit] := by decide
+example : TokOk [] [.registerPatch [0, 0], .backfill (some (2, ⟨0, 0, 2⟩)) [7, 7]]
+    [.token (some (2, ⟨0, 0, 2⟩)), .unit] := ⟨trivial, by simp [tokIn, tokAfter], trivial⟩
 -- the first op of that history as a `WOp` run: same world
 example : ((State.init pol tun).w.run (Op.toWOps 0 (State.init pol tun).w (.push ⟨[9], [1, 2, 3, 4, 5], [9, 9]⟩))).map
       (fun w => (w.iov 0, w.exts, w.heap, w.next)) =
